@@ -456,7 +456,7 @@ func c08b(c *core.Ctx, oe *orderEngine) {
 		var roots []*ssa.Function
 		for _, s := range []string{".ChainDatabase.SetBlock", ".ChainDatabase.SetStableBlock", ".ChainDatabase.SetConfirms", ".ChainDatabase.SetContractCode",
 			".NewChainDataBase", ".TrieDatabase.Commit", ".BeansDB.Put", ".BeansDB.Commit", ".BeansDB.Start", ".RunContext.Flush", ".RunContext.Load"} {
-			roots = append(roots, c.Fn(st+s))
+			roots = append(roots, c.FnOrCaller(st+s))
 		}
 		// the write extension installed by BeansDB.Start (see C08.9) is what SyncFileDB.afterWriteExtend invokes
 		fns := reachFrom(c, roots, nil, map[string]bool{st: true, ldb: true})
